@@ -240,24 +240,17 @@ func (fx *FnCtx) callWrites(li *loopInfo, cc *ssa.CallCommon) {
 			return
 		}
 		if c.HasFrame {
-			ok := true
-			for _, a := range c.Assigns {
-				id, isId := a.(*EIdent)
-				if !isId {
-					ok = false
-					break
-				}
-				if g, isG := fx.eng.CS.GVars[id.Name]; isG {
-					li.keys["G|"+g.Name] = true
-				} else if id.Name == "timers" {
-					li.keys["T|"] = true
-				} else if id.Name == "channels" {
-					li.keys["X|"] = true
-				} else {
-					ok = false
-				}
+			var cf *ssa.Function
+			if f := cc.StaticCallee(); f != nil {
+				cf = f
+			} else if mc, ok := cc.Value.(*ssa.MakeClosure); ok {
+				cf, _ = mc.Fn.(*ssa.Function)
 			}
+			keys, ok := fx.staticAssignKeys(c, cf, cc)
 			if ok {
+				for _, k := range keys {
+					li.keys[k] = true
+				}
 				return
 			}
 		}
@@ -1204,4 +1197,166 @@ func (fx *FnCtx) runDefers(st *State, fr *callFrame, k func(*State)) {
 	fx.doCallVals(st, fr, d.site, d.call, d.fnv, d.args, func(st2 *State, _ *Val) {
 		fx.runDefers(st2, fr, k)
 	})
+}
+
+// staticAssignKeys over-approximates a contract's assigns clause by heap-key prefixes (whole field arrays / memories),
+// using only static types: used to decide what a loop that calls the function may modify.
+func (fx *FnCtx) staticAssignKeys(c *Contract, cf *ssa.Function, cc *ssa.CallCommon) ([]string, bool) {
+	ptypes := map[string]types.Type{}
+	var pkg *types.Package
+	if cf != nil {
+		for _, p := range cf.Params {
+			ptypes[p.Name()] = p.Type()
+		}
+		for _, fv := range cf.FreeVars {
+			if pt, ok := fv.Type().Underlying().(*types.Pointer); ok {
+				ptypes[fv.Name()] = pt.Elem() // captured variables are cells
+			}
+		}
+		if len(cf.Params) > 0 && cf.Signature.Recv() != nil {
+			ptypes["recv"] = cf.Params[0].Type()
+		}
+		if cf.Pkg != nil {
+			pkg = cf.Pkg.Pkg
+		}
+	} else {
+		sig := cc.Signature()
+		if cc.IsInvoke() {
+			ptypes["recv"] = cc.Value.Type()
+		}
+		for i := 0; i < sig.Params().Len(); i++ {
+			ptypes[fmt.Sprintf("arg%d", i)] = sig.Params().At(i).Type()
+			if n := sig.Params().At(i).Name(); n != "" {
+				ptypes[n] = sig.Params().At(i).Type()
+			}
+		}
+	}
+	var typeOf func(e Expr) types.Type
+	typeOf = func(e Expr) types.Type {
+		switch x := e.(type) {
+		case *EIdent:
+			return ptypes[x.Name]
+		case *ESel:
+			t := typeOf(x.X)
+			if t == nil {
+				return nil
+			}
+			_, ft := lookupField(t, pkg, x.Name)
+			return ft
+		case *EUnary:
+			if x.Op == "*" {
+				if t := typeOf(x.X); t != nil {
+					if pt, ok := t.Underlying().(*types.Pointer); ok {
+						return pt.Elem()
+					}
+				}
+			}
+		case *EIndex:
+			if t := typeOf(x.X); t != nil {
+				switch u := t.Underlying().(type) {
+				case *types.Slice:
+					return u.Elem()
+				case *types.Map:
+					return u.Elem()
+				}
+			}
+		}
+		return nil
+	}
+	var keys []string
+	for _, a := range c.Assigns {
+		switch x := a.(type) {
+		case *EIdent:
+			if g, ok := fx.eng.CS.GVars[x.Name]; ok {
+				keys = append(keys, "G|"+g.Name)
+			} else if x.Name == "timers" {
+				keys = append(keys, "T|")
+			} else if x.Name == "channels" {
+				keys = append(keys, "X|")
+			} else if t, ok := ptypes[x.Name]; ok && cf != nil {
+				// captured variable (cell)
+				keys = append(keys, "M|cell:"+typeKey(t)+"|")
+			} else {
+				return nil, false
+			}
+		case *EIndex:
+			id, ok := x.X.(*EIdent)
+			if !ok {
+				return nil, false
+			}
+			if g, ok := fx.eng.CS.GVars[id.Name]; ok {
+				keys = append(keys, "G|"+g.Name)
+			} else {
+				return nil, false
+			}
+		case *ESel:
+			t := typeOf(x.X)
+			if t == nil {
+				return nil, false
+			}
+			pt, ok := t.Underlying().(*types.Pointer)
+			if !ok {
+				return nil, false
+			}
+			idx, _ := lookupField(t, pkg, x.Name)
+			if idx == nil {
+				return nil, false
+			}
+			var ps []string
+			for _, i := range idx {
+				ps = append(ps, fmt.Sprint(i))
+			}
+			keys = append(keys, "F|"+typeKey(pt.Elem())+"|"+strings.Join(ps, "."))
+		case *EUnary:
+			t := typeOf(x.X)
+			if x.Op != "*" || t == nil {
+				return nil, false
+			}
+			pt, ok := t.Underlying().(*types.Pointer)
+			if !ok {
+				return nil, false
+			}
+			if kindOf(pt.Elem()) == KStruct {
+				keys = append(keys, "F|"+typeKey(pt.Elem())+"|")
+			} else {
+				keys = append(keys, "M|cell:"+typeKey(pt.Elem())+"|")
+			}
+		case *ECall:
+			if len(x.Args) != 1 {
+				return nil, false
+			}
+			t := typeOf(x.Args[0])
+			if t == nil {
+				return nil, false
+			}
+			switch x.Fun {
+			case "bytes", "mem":
+				sl, ok := t.Underlying().(*types.Slice)
+				if !ok {
+					return nil, false
+				}
+				keys = append(keys, "M|"+typeKey(sl.Elem())+"|")
+			case "obj":
+				pt, ok := t.Underlying().(*types.Pointer)
+				if !ok {
+					return nil, false
+				}
+				keys = append(keys, "F|"+typeKey(pt.Elem())+"|")
+			case "entries":
+				mt, ok := t.Underlying().(*types.Map)
+				if !ok {
+					return nil, false
+				}
+				pk, nk := mapKeys(mt)
+				keys = append(keys, pk, nk, "M|map:"+typeKey(mt)+"|")
+			case "atomic":
+				keys = append(keys, "A|")
+			default:
+				return nil, false
+			}
+		default:
+			return nil, false
+		}
+	}
+	return keys, true
 }
